@@ -97,3 +97,7 @@ func ZZ_C18_RelayerOps_witness() {
 	err, _, _ := zzRelayerOp()
 	zzsym.Assert(err != nil, "WITNESS: some operation is accepted")
 }
+
+// engine-only stand-in (spec "overrides"): the refusal message of RegisterRelayer / RemoveRelayer prints the named address
+// in base58, which is big-number arithmetic on symbolic bytes. Only the text of an error message depends on it.
+func zzToBase58(a *common.Address) string { return "<address>" }
